@@ -161,9 +161,9 @@ impl Variant {
                     return self.float_value.unwrap() as i64;
                 }
 
-                let int_value = self.string_value.parse::<usize>();
+                let int_value = self.string_value.parse::<i64>();
                 match int_value {
-                    Ok(i) => i as i64,
+                    Ok(i) => i,
                     _ => match parse_filesize(&self.string_value) {
                         Some(size) => size as i64,
                         _ => 0,
